@@ -63,6 +63,9 @@ def run(chk):
         texts.append(t)
         if rng.random() < 0.15:
             texts += gen_check.all_prefixes(t)[-40:]
+    # CR LF documents and the states they pass through (the text ends right after a carriage return)
+    for i in range(0, min(len(texts), 3000), max(1, len(texts) // chk.size(25, 300))):
+        texts += gen_check.crlf_cuts(texts[i], rng)
     # sizes: many declared-but-unused variables (hundreds of diagnostics), long documents, very long lines; broken too
     for i in range(0, min(len(texts), 4000), max(1, len(texts) // chk.size(40, 300))):
         pv = gen_check.pad_vars(texts[i], rng)
